@@ -465,6 +465,7 @@ type vpsampGenCfg struct {
 	MaxRows   int
 	EqualSize bool // rows of one metric always have the same size (precondition of "kept bytes <= budget")
 	ZeroSize  bool // allow a few rows with Size < 1
+	ZeroMode  bool // some cases: budget 0..4 over a small nested bucket (see vpsampGenZero)
 }
 
 var (
@@ -476,10 +477,61 @@ var (
 	vpsampFixedFrac    = []float64{0.1, 0.5, 0.9, 1.0, 1.5, 3}
 )
 
+// vpsampGenZero: the budget that reaches the sampled level is zero. Run(0) happens on the agent when
+// the per-metric budgets handed out by the aggregator use up the shard budget and MinSampleBudget is
+// 0; with a budget of 1..4 bytes a nested share below one byte is rounded down to 0 in some of the
+// runs (random rounding) or in all of them (floor). The sampler then falls back to a finite factor
+// proportional to size/weight (sumWeight*size/weight). The bucket is kept tiny (rows of 28..32 bytes,
+// equal weights, one or two children per level) so that this factor stays within 28..~250 and the
+// statistical clause of C05 keeps its power with the larger number of runs used for these cases.
+func vpsampGenZero(t *rapid.T) vpsampCase {
+	var c vpsampCase
+	b := func(label string, pct int) bool { return rapid.IntRange(0, 99).Draw(t, label) < pct }
+	shape := rapid.IntRange(0, 3).Draw(t, "zero_shape") // 0 flat, 1 namespaces+groups, 2 fair keys, 3 both
+	nested, keys := shape == 1 || shape == 3, shape >= 2
+	c.Opt = vpsampOpt{ModeAgent: b("agent", 50), Budgets: b("budgets", 60), Namespaces: nested, Groups: nested, Keys: keys}
+	w := rapid.SampledFrom([]int64{1, 128}).Draw(t, "weight")
+	nsIDs := []int32{format.BuiltinNamespaceIDDefault, 1}
+	for _, id := range nsIDs {
+		c.Namespaces = append(c.Namespaces, vpsampWeight{ID: id, W: w})
+	}
+	c.Groups = []vpsampWeight{{ID: format.BuiltinGroupIDDefault, W: w}, {ID: 10, W: w}}
+	nMetrics := rapid.IntRange(1, 3).Draw(t, "n_metrics")
+	for i := 0; i < nMetrics; i++ {
+		m := vpsampMetric{ID: int32(100 + i), NS: nsIDs[0], Group: format.BuiltinGroupIDDefault, Weight: w}
+		if nested {
+			m.NS = rapid.SampledFrom(nsIDs).Draw(t, "metric_ns")
+			if m.NS == nsIDs[0] && b("own_group", 50) {
+				m.Group = 10
+			}
+		}
+		if keys {
+			m.FairKey = [][]int{{1}, {1, 2}}[rapid.IntRange(0, 1).Draw(t, "fk")]
+		}
+		if b("inline_meta", 20) {
+			m.Meta = vpsampMetaInline
+		}
+		c.Metrics = append(c.Metrics, m)
+	}
+	n := rapid.IntRange(1, 8).Draw(t, "n_rows")
+	for i := 0; i < n; i++ {
+		r := vpsampRow{M: rapid.IntRange(0, nMetrics-1).Draw(t, "row_metric"), Size: rapid.IntRange(28, 32).Draw(t, "row_size"),
+			Whale: rapid.SampledFrom(vpsampWhales).Draw(t, "whale"), Pct: b("pct", 20)}
+		r.Tags[0] = int32(rapid.IntRange(0, 3).Draw(t, "tag"))
+		r.Tags[1] = int32(rapid.IntRange(0, 1).Draw(t, "tag"))
+		c.Rows = append(c.Rows, r)
+	}
+	c.Budget = rapid.SampledFrom([]int64{0, 0, 0, 0, 1, 2, 3, 4}).Draw(t, "budget")
+	return c
+}
+
 func vpsampGen(gc vpsampGenCfg) *rapid.Generator[vpsampCase] {
 	return rapid.Custom(func(t *rapid.T) vpsampCase {
 		var c vpsampCase
 		b := func(label string, pct int) bool { return rapid.IntRange(0, 99).Draw(t, label) < pct }
+		if gc.ZeroMode && b("zero_mode", 12) {
+			return vpsampGenZero(t)
+		}
 		c.Opt = vpsampOpt{
 			ModeAgent:       b("agent", 50),
 			KeepSingle:      b("keep_single", 25),
